@@ -288,6 +288,8 @@ func (sf *schemafier) schemafy(attr *expr.AttributeExpr, noref ...bool) *openapi
 	if val.MinLength != nil {
 		if _, ok := attr.Type.(*expr.Array); ok {
 			s.MinItems = val.MinLength
+		} else if _, ok := attr.Type.(*expr.Map); ok {
+			s.MinProperties = val.MinLength
 		} else {
 			s.MinLength = val.MinLength
 		}
@@ -295,6 +297,8 @@ func (sf *schemafier) schemafy(attr *expr.AttributeExpr, noref ...bool) *openapi
 	if val.MaxLength != nil {
 		if _, ok := attr.Type.(*expr.Array); ok {
 			s.MaxItems = val.MaxLength
+		} else if _, ok := attr.Type.(*expr.Map); ok {
+			s.MaxProperties = val.MaxLength
 		} else {
 			s.MaxLength = val.MaxLength
 		}
